@@ -236,7 +236,7 @@ ADVERSARIAL_STREAMS = [
     "a:   1\nb:     [ 1 ,2 ]\n", "\"a\": 'b'\n", "a: \"\\u00e9\\x41\\t\"\n", "a: |+\n  x\n\nb: 1\n", "a: >-\n  folded\n  text\n\n  para\n", "- - - 1\n- - 2\n", "- a: 1\n  b: 2\n- c: 3\n",
     "key: value # comment\n", "# h\nkey: value\n", "key: value\n# f\n", "\ufeffa: 1\n", "a: 1\r\nb: 2\r\n", "a: 'it''s'\n", "a: \"q\\\"q\"\n", "a: !!binary aGVsbG8=\n",
     "- !!int \"12\"\n- !!float 1\n- !!str 1\n- !!bool \"true\"\n", "a: 0x1F\nb: 0o17\nc: 1_000\nd: 1e3\ne: .inf\n", "a: 2001-01-01\nb: 2001-01-01T00:00:00Z\n",
-    "#  c1\n\n#  c2\n\na: 1\n", "  \n# c\na: 1\n", "# $yqDocSeparator$\na: 1\n", "\t\n#c\nb: 1\n", "# c\n \n# d\na: 1\n", "---\n# c\n---\n# d\n", "a: 1 # x\n---\n# y\nb: 2\n", "a: &a1 [1, 2]\nb: *a1\n", "&r a: 1\n", "!custom\na: 1\n", "--- !custom\na: 1\n",
+    "#  c1\n\n#  c2\n\na: 1\n", "  \n# c\na: 1\n", "# $yqDocSeparator$\na: 1\n", "\n\n0\n", "\n\na\n", "\t\n#c\nb: 1\n", "# c\n \n# d\na: 1\n", "---\n# c\n---\n# d\n", "a: 1 # x\n---\n# y\nb: 2\n", "a: &a1 [1, 2]\nb: *a1\n", "&r a: 1\n", "!custom\na: 1\n", "--- !custom\na: 1\n",
     "--- &r\na: 1\n", "--- |\n  text\n", "--- >\n  text\n", "--- \"dq\"\n", "--- # c\n- a\n", "a: 1\n--- # c\nb: 2\n", "- # c\n  a: 1\n", "a: # c\n  b: 1\n", "a: # c\n  - 1\n",
 ]
 
@@ -615,6 +615,15 @@ def run(chk):
                                "impl_out": out.decode("utf-8", "replace")[:3000], "status": st}, True, "yq . : " + why)
     chk.extra["identity_stats"] = stats
 
+    # known finding replayed explicitly (a trailing comma is not visible to the event-level comparison)
+    rc, o, e_ = vlib.run_yq(["."], stdin=b"- a\n- {k: b}\n# c3\n")
+    if rc == 0 and o != b"- a\n- {k: b}\n# c3\n":
+        if o == b"- a\n- {k: b,}\n# c3\n" and chk.is_known("flow-trailing-comma-before-foot-comment"):
+            chk.known_finding("flow-trailing-comma-before-foot-comment", "- a / - {k: b} / # c3")
+        else:
+            chk.violation({"kind": "identity", "input_b64": vlib.b64e("- a\n- {k: b}\n# c3\n"), "input": "- a\n- {k: b}\n# c3\n", "comments": [], "status": "bytes",
+                           "impl_out": o.decode("utf-8", "replace")}, True, "canonical input is not reproduced byte for byte")
+
     # ---------------- tie 1: the style constants the model's tables are written against ----------------
     consts = vlib.yqh_batch([{"op": "c05consts"}])[0] or {}
     want = [1, 2, 4, 8, 16, 32]
@@ -699,6 +708,12 @@ def run(chk):
     h_body = h_body_fail = h_reread = h_reread_fail = 0
     for e, r2 in zip(emitted, resp2):
         lead, rest, short = py_process(e)
+        try:
+            single = len(compose_all(e.decode("utf-8"))) == 1
+        except Exception:  # noqa
+            single = False
+        if not single:
+            continue
         body_ok = lead == b"" and not short and len(e) >= 4
         if body_ok:
             h_body += 1
@@ -712,6 +727,10 @@ def run(chk):
                 if out2 == e and lead2 == b"":
                     h_reread += 1
                 else:
+                    if out2.replace(b",}", b"}").replace(b",]", b"]") == e and lead2 == b"" and chk.is_known("flow-trailing-comma-before-foot-comment"):
+                        chk.known_finding("flow-trailing-comma-before-foot-comment", e.decode("utf-8", "replace")[:80])
+                        h_reread_fail += 1
+                        continue
                     h_reread_fail += 1
                     chk.extra.setdefault("H_reread_failures", []).append({"doc": e.decode("utf-8", "replace")[:200], "again": out2.decode("utf-8", "replace")[:200], "lead": lead2.decode("utf-8", "replace")[:50]})
                     if h_reread_fail <= 3 and not short_tail_signature(e):
